@@ -1425,6 +1425,62 @@ def rule_file6c(prog, rep, tier, anchor="__main__.main"):
         raise AnalysisError("FILE-6c: main() raises no usage error at all")
 
 
+# ---------------------------------------------------------------------------- ARGS-ORDER (C09)
+def rule_args_order(prog, rep, tier, entry="__main__.main", worker="conformance.ground_truth"):
+    """ARGS-ORDER (C09): the order in which the user gave the files of a kind carries meaning - the first file of the truth's kind
+    *is* the truth, and the i-th name belongs to the i-th file.  Between `parse_args` and the call of the sync worker no store into
+    the namespace (a rebuilt `Namespace(..)`, `setattr(args, ..)`, `args.x = ..`) passes the lists through something that reorders
+    or de-duplicates them (`sorted`, `set`, `frozenset`, `reversed`, a negative-step slice, `.sort()` / `.reverse()` in place)."""
+    fi = prog.fn(entry)
+    calls = [c for c in ast.walk(fi.node) if isinstance(c, ast.Call) and isinstance(c.func, (ast.Name, ast.Attribute)) and prog.is_fn(c.func, worker, c)]
+    if not calls:
+        raise AnalysisError("ARGS-ORDER: %s no longer calls %s" % (entry, worker))
+    ns_names = {n.id for c in calls for a in c.args[:1] for n in ast.walk(a) if isinstance(n, ast.Name)}
+    if not ns_names:
+        raise AnalysisError("ARGS-ORDER: the namespace handed to %s is not a name" % worker)
+    REORDER = ("sorted", "set", "frozenset", "reversed")
+    n = 0
+
+    def reorders(e):
+        for x in ast.walk(e):
+            if isinstance(x, ast.Call) and isinstance(x.func, ast.Name) and x.func.id in REORDER and prog.lookup(x.func.id, x)[0] == "builtin":
+                return x
+            if isinstance(x, ast.Subscript) and isinstance(x.slice, ast.Slice) and isinstance(x.slice.step, ast.UnaryOp):
+                return x
+            if isinstance(x, (ast.Set, ast.SetComp)):
+                return x
+        return None
+    for st in ast.walk(fi.node):
+        val, what = None, None
+        if isinstance(st, ast.Assign) and any((isinstance(t, ast.Name) and t.id in ns_names) or (isinstance(t, ast.Attribute) and isinstance(t.value, ast.Name) and t.value.id in ns_names)
+                                              for t in st.targets):
+            val, what = st.value, src(st, 50)
+        elif isinstance(st, ast.Call) and isinstance(st.func, ast.Name) and st.func.id == "setattr" and len(st.args) == 3 and isinstance(st.args[0], ast.Name) \
+                and st.args[0].id in ns_names:
+            val, what = st.args[2], src(st, 50)
+        elif isinstance(st, ast.Call) and isinstance(st.func, ast.Attribute) and st.func.attr in ("sort", "reverse") and any(
+                isinstance(x, ast.Name) and x.id in ns_names for x in ast.walk(st.func.value)):
+            n += 1
+            rep.violation(Finding("ARGS-ORDER", entry, "namespace-list-reordered:%s" % st.func.attr,
+                                  "%s reorders a list of the namespace in place: the first file of the truth's kind is the truth, and names pair with files by position" % src(st, 60),
+                                  loc(prog, st)))
+            continue
+        if val is None:
+            continue
+        n += 1
+        r = reorders(val)
+        if r is not None:
+            rep.violation(Finding(
+                "ARGS-ORDER", entry, "namespace-list-reordered:%s" % (r.func.id if isinstance(r, ast.Call) else "set" if isinstance(r, (ast.Set, ast.SetComp)) else "reversed-slice"),
+                "%s stores lists into the namespace that went through %s: the order the user gave is lost - with two files of the truth's kind another file than the first "
+                "given becomes the truth (and is then the one every target, the real truth included, is conformed to), and the i-th name no longer belongs to the i-th file"
+                % (what, src(r, 40)), loc(prog, st)))
+        else:
+            rep.holds("ARGS-ORDER", "%s: %s" % (entry, what), loc(prog, st), "the lists keep the order in which they were given")
+    if n == 0:
+        rep.holds("ARGS-ORDER", "%s: the namespace reaches %s as parse_args built it" % (entry, worker), loc(prog, fi.node), "")
+
+
 # ---------------------------------------------------------------------------- TARGET-COVER (C09)
 def rule_target_cover(prog, rep, tier, entry="conformance.ground_truth", truth_param="truth_file"):
     """TARGET-COVER (C09): every file the caller listed for a kind is handed to the per-file worker - the only file that may be
